@@ -145,7 +145,8 @@ Proof.
 Qed.
 Lemma char_high r : 128 <= r -> is_scalar r = true -> char_case_ok r = true.
 Proof.
-  intros Hhi Hs. unfold char_case_ok, char_name. rewrite special_none by exact Hhi. replace (r <? 32) with false by lia.
+  intros Hhi Hs. unfold char_case_ok, char_name, char_by_code. rewrite special_none by exact Hhi.
+  replace (r <? 32) with false by lia. replace (r <? 128) with false by lia. cbn [andb orb].
   pose proof (utf8_high_bytes r Hhi) as HF. pose proof (utf8_length r Hhi) as HL. pose proof (decode_encode r [] Hs) as HD.
   rewrite app_nil_r in HD.
   destruct (utf8 r) as [|b0 [|b1 tl]] eqn:Eu; cbn [length] in HL; try lia.
@@ -164,7 +165,7 @@ Proof.
   intros He Hc. unfold char_text. rewrite He.
   assert (Hok : char_case_ok r = true).
   { destruct (N.lt_ge_cases r 128); [apply char_small; assumption|apply char_high; [assumption|]].
-    unfold char_readable in Hc. apply andb_true_iff in Hc as [Hc _]. exact Hc. }
+    exact Hc. }
   unfold char_case_ok in Hok. apply andb_true_iff in Hok as [Hok Hcls]. apply andb_true_iff in Hok as [Hres Hne].
   destruct (resolve_char (char_name r)) as [[| | | | | |r'| | | | | |]|] eqn:E; try discriminate Hres. apply N.eqb_eq in Hres. subst r'.
   exists (TLeaf (LChar (char_name r))), (OChr r). split.
